@@ -29,6 +29,7 @@ type SiteSpec struct {
 	Hits    int
 	Lemma    bool   // proved at the site and assumed afterwards
 	Before   bool   // ghost set evaluated before the call executes
+	After    bool   // lemma proved (and then assumed) right after the call, with res bound to its result
 	SetGhost string // `at call f: set $g := expr` (expr may mention res)
 	SetExpr  Expr
 }
@@ -438,10 +439,16 @@ func ParseSpecFile(path string) (*SpecFile, error) {
 				break
 			}
 			isLemma := false
+			lemmaAfter := false
 			i := strings.Index(rest, ": assert ")
 			if i < 0 {
 				// `at call f: lemma L: e` is proved at the site like an assert and, unlike an assert, may be used afterwards
-				if j := strings.Index(rest, ": lemma "); j >= 0 {
+				if j := strings.Index(rest, ": lemma-after "); j >= 0 {
+					rest = rest[:j] + ": assert " + rest[j+len(": lemma-after "):]
+					i = j
+					isLemma = true
+					lemmaAfter = true
+				} else if j := strings.Index(rest, ": lemma "); j >= 0 {
 					rest = rest[:j] + ": assert " + rest[j+len(": lemma "):]
 					i = j
 					isLemma = true
@@ -464,7 +471,7 @@ func ParseSpecFile(path string) (*SpecFile, error) {
 			if err != nil {
 				return nil, fail("%v", err)
 			}
-			curFunc.Sites = append(curFunc.Sites, &SiteSpec{Kind: kind, Callee: callee, Ordinal: ord, Clause: c, Lemma: isLemma})
+			curFunc.Sites = append(curFunc.Sites, &SiteSpec{Kind: kind, Callee: callee, Ordinal: ord, Clause: c, Lemma: isLemma, After: lemmaAfter})
 		case "arith":
 			curFunc.ArithChecked = true
 		case "conv":
